@@ -24,7 +24,20 @@ def target_callable(spec):
     return obj
 
 
-def build(x, exact=False):
+def build(x, exact=False, raw=False):
+    """raw=True: objects stay dicts of their fields (a contract's own build_inputs makes the real objects)."""
+    if raw:
+        if isinstance(x, dict):
+            if "frac" in x or "tuple" in x:
+                return build(x, exact) if "frac" in x else tuple(build(y, exact, True) for y in x["tuple"])
+            if "obj" in x:
+                return {k: build(v, exact, True) for k, v in x["fields"].items()}
+            if "opaque" in x:
+                return x["id"]
+            return {k: build(v, exact, True) for k, v in x.items()}
+        if isinstance(x, list):
+            return [build(y, exact, True) for y in x]
+        return x
     if isinstance(x, dict):
         if "frac" in x:
             fr = Fraction(x["frac"][0], x["frac"][1])
